@@ -125,7 +125,7 @@ func (e *Env) GetEnvFromPath(path []string) (*Env, error) {
 		value, ok = e.values[path[0]]
 		e.rwMutex.RUnlock()
 		if ok {
-			if module, isEnv := value.Interface().(*Env); isEnv {
+			if module, isEnv := value.Interface().(*Env); isEnv && module != nil {
 				e = module
 				break
 			}
@@ -142,7 +142,7 @@ func (e *Env) GetEnvFromPath(path []string) (*Env, error) {
 		value, ok = e.values[path[i]]
 		e.rwMutex.RUnlock()
 		if ok {
-			if module, isEnv := value.Interface().(*Env); isEnv {
+			if module, isEnv := value.Interface().(*Env); isEnv && module != nil {
 				e = module
 				continue
 			}
